@@ -169,6 +169,10 @@ bool Component::ComponentImpl::performTestWithHistory(History &history, const Co
 bool Component::doAddComponent(const ComponentPtr &component)
 {
     auto newParent = shared_from_this();
+    if (newParent == component) {
+        // A component cannot be its own child, whether or not it currently has a parent.
+        return false;
+    }
     bool hasParent = component->hasParent();
     if (hasParent) {
         if (hasAncestor(component)) {
